@@ -70,21 +70,21 @@ CHECKS = {
         'assumptions': T_ASSUME,
     },
     'C05': {
-        'units': lambda t: [u_exc(t, 0), u_exc(t, 1), u_exc(t, 2), u_exc(t, 4), u_exc(t, 5), u_exc(t, 6), u_exc(t, 7), u_conv(t), dict(plain_unit('u_c05_names', 'units/c05_names.cpp', t, opt='-O0'), shards=1)],
+        'units': lambda t: [u_exc(t, 0), u_exc(t, 1), u_exc(t, 2), u_exc(t, 4), u_exc(t, 5), u_exc(t, 6), u_exc(t, 7), u_exc(t, 8), u_exc(t, 9), u_conv(t), dict(plain_unit('u_c05_names', 'units/c05_names.cpp', t, opt='-O0'), shards=1)],
         'rule': 'tables over must/if_must/if_must_else/opt_must/star_must/list_must/raise/raise_message/try_catch_* (8 variants) nested with the classical '
                 'operators; holes may throw parse_error, a std::exception and a foreign type; actions may throw (deviation bounded); three control '
                 'families plus two must_if tables (message table; explicit raise_on_failure), each over the monitor and over the plain normal control (std::terminate = the error did not reach the caller); oracle: exception identity, message, position interval, what(), nesting; default messages for rules whose printed name contains each of the 95 printable characters',
         'assumptions': T_ASSUME,
     },
     'C04': {
-        'units': lambda t: [u_act(t, 0), u_act(t, 0, 1), u_core(t), u_conv(t)],
+        'units': lambda t: [u_act(t, 0), u_act(t, 0, 1), u_core(t), u_conv(t), u_scopes(t)],
         'rule': 'tables over the classical operators plus enable/disable, action<>, apply/apply0/if_apply rules with void/bool apply/apply0 actions attached by rule id, eager and lazy inputs; every veto/throw '
                 'decision function with <=2 (thorough 3) non-default answers; oracle: online span/enabledness check at every invocation, equality '
                 'of the transactional action log with the reference derivation, and equality of the complete invocation log (backtracked invocations included) - the latter also over every convenience rule',
         'assumptions': T_ASSUME,
     },
     'C08': {
-        'units': lambda t: [u_exc(t, 0), u_exc(t, 1), u_exc(t, 2), u_act(t, 0), u_act(t, 1), u_act(t, 2), t_unit('t_cov', 'COV', tier=t)],
+        'units': lambda t: [u_exc(t, 0), u_exc(t, 1), u_exc(t, 2), u_exc(t, 4), u_exc(t, 5), u_exc(t, 8), u_act(t, 0), u_act(t, 1), u_act(t, 2), u_tree(t, 0), t_unit('t_cov', 'COV', tier=t)],
         'rule': 'hook log of every execution of the exception and action spaces under three control families (with unwind, without unwind, all rules '
                 'visible) is run through the protocol automaton start;(apply|apply0)?;(success|failure|unwind) with proper nesting; the real coverage<> facility on tables of '
                 '<=3 rules with vetoing and throwing actions: start = success + failure + unwind for every rule and branch, and the per-rule counters equal the reference\'s number of attempts and outcomes, '
@@ -124,7 +124,7 @@ CHECKS = {
         'engine': 'table-engine + static generator',
         'rule': 'family (i): every operator that has analyze_traits (classical, convenience 2- and 3-argument, numeric repetitions, try_catch_*, enable/disable/state/action/control, '
                 'raw_string with a content rule, separated_seq, if_then) over itself at every child position with the other positions filled from {one, opt<one>, at<one>, failure, eof}; '
-                'family (ii): indirect recursion through ordered operator pairs (quick: classical operators; thorough: the full unary/binary menu); every table is compiled as an ordinary '
+                'family (ii): indirect recursion - three-rule tables over the classical operators; thorough adds every ordered pair of the full unary/binary menu as two-rule tables; every table is compiled as an ordinary '
                 'static grammar and analyze<G>(-1) is asked; a loop witness is an input over {a,b,[} of length <=3 on which the reference re-enters the same (rule, position) or a repetition '
                 'body succeeds without progress, confirmed by the fuel-limited real run not terminating; violation = zero problems reported and a confirmed witness',
         'assumptions': T_ASSUME + ['witnesses are limited to inputs of length <=3 over {a,b,[}: every enumerated rule consumes at most one byte per step, so shorter witnesses exist whenever any does'],
